@@ -9,11 +9,11 @@ from props.devs_common import coq_case, nontrivial, op_kinds, run_impl  # noqa: 
 ID = "C15"
 COQ_PROPERTY_FILE = "Properties/C15.v"
 COQ_DEPS = ["Generated/Tables.v", "Model/Devs.v", "Model/DevsSpec.v", "Proofs/DevsProofs.v", "Proofs/DevsChunkProofs.v", "Proofs/DevsStepProofs.v",
-            "Proofs/DevsTopProofs.v", "Proofs/DevsVizProofs.v"]
+            "Proofs/DevsTopProofs.v", "Proofs/DevsVizProofs.v", "Proofs/DevsVizTopProofs.v"]
 COQ_IMPORTS = "From Mesa Require Import Generated.Tables Model.Devs."
 COQ_CASE_TYPE = "case"
 COQ_RUN = "run_case"
-TABLE_CONSTRUCTS = ["devs_priority_values", "devs_event_key", "devs_step_priority"]
+TABLE_CONSTRUCTS = ["devs_priority_values", "devs_event_key", "devs_step_priority", "devs_viz_run_for"]
 S = D.S
 
 
